@@ -18,20 +18,20 @@ Periods(rates) == [i \in 1..Len(rates) |-> rates[i].p]
 Has(ps, p) == \E i \in 1..Len(ps) : ps[i] = p
 IdxOf(ps, p) == CHOOSE i \in 1..Len(ps) : ps[i] = p
 
-(* TokenBucketSet.Update; KeepTokens is a mutant (tokens not cut down to a smaller burst) *)
-UpdateSet(bks, ps, rates, now, KeepTokens) ==
+(* TokenBucketSet.Update; RefillOnUpdate is a mutant (every Update tops the bucket up to its burst) *)
+UpdateSet(bks, ps, rates, now, RefillOnUpdate) ==
   [i \in 1..Len(rates) |->
      IF Has(ps, rates[i].p)
        THEN LET o == bks[IdxOf(ps, rates[i].p)]
-            IN [avail |-> IF KeepTokens THEN o.avail ELSE Min(o.avail, rates[i].b), last |-> o.last]
+            IN [avail |-> IF RefillOnUpdate THEN rates[i].b ELSE Min(o.avail, rates[i].b), last |-> o.last]
        ELSE [avail |-> rates[i].b, last |-> now]]
 
 (* TokenLimiter.consumeRates with the request's own rate set *)
-ConsumeRatesDyn(tracked, rates, cap, tps, now, s, n, victim, KeepTokens) ==
+ConsumeRatesDyn(tracked, rates, cap, tps, now, s, n, victim, RefillOnUpdate) ==
   LET live == s \in DOMAIN tracked /\ ~Expired(tracked[s], now, tps)
       t0 == IF s \in DOMAIN tracked /\ ~live THEN Drop(tracked, s) ELSE tracked
       t1 == IF live \/ Cardinality(DOMAIN t0) < cap THEN t0 ELSE Drop(t0, victim)
-      bks0 == IF live THEN UpdateSet(tracked[s].bks, tracked[s].ps, rates, now, KeepTokens) ELSE FreshSet(rates, now)
+      bks0 == IF live THEN UpdateSet(tracked[s].bks, tracked[s].ps, rates, now, RefillOnUpdate) ELSE FreshSet(rates, now)
       exp0 == now \div tps + TtlSec(rates, tps)
       c == ConsumeSet(bks0, rates, now, n, FALSE)
   IN [tracked |-> Put(t1, s, [exp |-> exp0, bks |-> c.bks, ps |-> Periods(rates)]),
